@@ -57,13 +57,13 @@ theorem filter_normal_eq_dropWhile {K : List HTree} (ho : kidsOrdered K = true) 
     intro k hk; exact dropWhile_abn_normal K ho k hk
   rw [h1, h2]; rfl
 
-theorem validList_mem {b : Bool} : ∀ {L : List HTree}, validList b L = true → ∀ t ∈ L, validTree b t = true
+theorem fs_validList_mem {b : Bool} : ∀ {L : List HTree}, validList b L = true → ∀ t ∈ L, validTree b t = true
   | [], _, t, ht => by cases ht
   | k :: ks, h, t, ht => by
-    rw [validList_cons, Bool.and_eq_true] at h
+    rw [fs_validList_cons, Bool.and_eq_true] at h
     cases List.mem_cons.1 ht with
     | inl e => rw [e]; exact h.1
-    | inr e => exact validList_mem h.2 t e
+    | inr e => exact fs_validList_mem h.2 t e
 
 /-- Attribute and namespace nodes are leaves. -/
 theorem abn_leaf {b : Bool} {t : HTree} (hv : validTree b t = true) (hn : t.value.isNormal = false) :
@@ -170,7 +170,7 @@ theorem removeElement_site {f : Forest} {p n : Nat} {v vn : Value} {l K r : List
   have hsubK : (handlesList (K.dropWhile abn)).Sublist (handlesList K) := by
     have : handlesList K = handlesList (K.takeWhile abn ++ K.dropWhile abn) := by
       rw [List.takeWhile_append_dropWhile]
-    rw [this, handlesList_append]
+    rw [this, fs_handlesList_append]
     exact List.sublist_append_right _ _
   have e1 : f.removeElement n =
       (f.editAt (some n) (fun _ => K.dropWhile abn)).spliceOut n := by
@@ -186,7 +186,7 @@ theorem removeElement_site {f : Forest} {p n : Nat} {v vn : Value} {l K r : List
   have s0 : SiteAt (f.editAt (some p) g1) p v (l ++ .node n vn (K.dropWhile abn) :: r) := by
     have := s.edit g1 (by
       rw [hg1]
-      simp only [handlesList_append, handlesList_cons, handles_node]
+      simp only [fs_handlesList_append, handlesList_cons, handles_node]
       exact (List.Sublist.refl _).append ((hsubK.cons_cons n).append (List.Sublist.refl _)))
     rw [hg1] at this; exact this
   obtain ⟨ndL0, _⟩ := s0.nodupKids
@@ -203,7 +203,7 @@ theorem removeElement_site {f : Forest} {p n : Nat} {v vn : Value} {l K r : List
   refine ⟨e2, ?_⟩
   rw [e2]
   exact s.edit (fun _ => l ++ K.dropWhile abn ++ r) (by
-    simp only [handlesList_append, handlesList_cons, handles_node, List.append_assoc]
+    simp only [fs_handlesList_append, handlesList_cons, handles_node, List.append_assoc]
     exact (List.Sublist.refl _).append (((hsubK.cons n)).append (List.Sublist.refl _)))
 
 theorem elementUnwrap_nokids {f : Forest} {n : Nat} (hel : f.isElement n = true)
@@ -268,7 +268,7 @@ theorem seamStep {g : Forest} {p : Nat} {v : Value} {A B : List HTree} (k : HTre
     subst eA eB
     refine ⟨A', a, b, B', x, y, rfl, rfl, hx, hy, hp, hn, h3, ?_⟩
     exact sg.edit (fun _ => A' ++ a.setValue (.text (x ++ y)) :: B') (by
-      simp only [handlesList_append, handlesList_cons, handlesList_nil, setValue_handles, List.append_assoc,
+      simp only [fs_handlesList_append, handlesList_cons, handlesList_nil, setValue_handles, List.append_assoc,
         List.append_nil]
       exact (List.Sublist.refl _).append ((List.Sublist.refl _).append (List.sublist_append_right _ _)))
 
@@ -503,11 +503,11 @@ theorem unwrap_core {f : Forest} {p n : Nat} {v vn : Value} {l K r : List HTree}
   have hnK : n ∉ handlesList K := (nodup_handles_node ndw).1
   have hwmem : HTree.node n vn K ∈ l ++ .node n vn K :: r := List.mem_append_right _ List.mem_cons_self
   have hvp := s.valid inv.valid
-  have hvw := validList_mem (validTree_node hvp).2.2.2 _ hwmem
+  have hvw := fs_validList_mem (validTree_node hvp).2.2.2 _ hwmem
   have hordK := (validTree_node hvw).2.1
   have hvK := (validTree_node hvw).2.2.2
   have hleafAb : ∀ k ∈ K.takeWhile abn, k.kids = [] := fun k hk =>
-    abn_leaf (validList_mem hvK k ((List.takeWhile_sublist _).subset hk)) (takeWhile_abn_all K k hk)
+    abn_leaf (fs_validList_mem hvK k ((List.takeWhile_sublist _).subset hk)) (takeWhile_abn_all K k hk)
   have hleafK : ∀ t ∈ K, t.value.isText = true → t.kids = [] :=
     SiteAt.leaf (f := f) (p := n) (v := vn) ⟨s.nd, s.getKid⟩ inv.valid
   have hleafr : ∀ t ∈ r, t.value.isText = true → t.kids = [] :=
@@ -559,7 +559,7 @@ theorem unwrap_core {f : Forest} {p n : Nat} {v vn : Value} {l K r : List HTree}
     have hcf : f.consolidation = true := hc1 ▸ hc
     have hsP := s.valid (norm hcf)
     obtain ⟨hl, hwr, _⟩ := noAdj_append.1 ((validTree_node hsP).2.2.1 rfl)
-    have hsW := validList_mem (validTree_node hsP).2.2.2 _ hwmem
+    have hsW := fs_validList_mem (validTree_node hsP).2.2.2 _ hwmem
     have hsK := (validTree_node hsW).2.2.1 rfl
     rw [hK] at hsK
     exact ⟨hl, (noAdj_append.1 hsK).2.1, noAdj_tail hwr⟩
